@@ -260,7 +260,7 @@ func (sps *RawSPS) FrameRate() float64 {
 	if sps.Vui.NumUnitsInTick == 0 {
 		return 0.0
 	}
-	return float64(sps.Vui.TimeScale) / float64(sps.Vui.NumUnitsInTick*2)
+	return float64(sps.Vui.TimeScale) / (2 * float64(sps.Vui.NumUnitsInTick))
 }
 
 // IsFixedFrameRate 是否固定帧率
